@@ -14,7 +14,7 @@ func init() { checks["C10"] = c10 }
 
 func c10(r *core.Run) {
 	bin := r.GoBuild("vchild", "./cmd/vchild")
-	n := uint64(r.Pick(240, 3000))
+	n := uint64(r.Pick(240, 2000))
 	if v := os.Getenv("VERIF_C10_N"); v != "" {
 		fmt.Sscan(v, &n)
 	}
